@@ -9,7 +9,21 @@ class R(resource.Resource):
     def render_GET(self, request):
         return b"x" * 100000
 site = server.Site(R())
-clock = task.Clock()
+class FakeReactor:
+    def __init__(self): self.q = []
+    def callLater(self, t, f, *a, **k):
+        self.q.append((f, a, k))
+        class DC:
+            def cancel(s): pass
+            def active(s): return False
+            def reset(s, t): pass
+        return DC()
+    def advance(self, t):
+        q, self.q = self.q, []
+        for f, a, k in q: f(*a, **k)
+    def getDelayedCalls(self): return self.q
+    def seconds(self): return 0
+clock = FakeReactor()
 conn = _http2.H2Connection(reactor=clock)
 conn.requestFactory = server.Request; conn.site = site; conn.factory = site
 tr = StringTransport()
@@ -32,7 +46,7 @@ for i in range(50):
     clock.advance(0); pump()
 print("received before shrink", got)
 # shrink initial window so that stream window goes negative
-c.update_settings({h2.settings.SettingCodes.INITIAL_WINDOW_SIZE: 100})
+c.update_settings({h2.settings.SettingCodes.INITIAL_WINDOW_SIZE: 65435})
 pump()
 print("server view of stream window:", conn.conn.local_flow_control_window(1))
 try:
